@@ -221,10 +221,17 @@ def gen_test(prog, fnkey, inputs, repo):
         if k == 'ptr':
             et = types.elem(tk)
             # pointer to a plain value: build the pointee
+            seeds = [code for (nm, code) in con.seeds if nm == p['name']]
+            if seeds:
+                varlists.append((p['name'], tk, seeds, False))
+                continue
             pd = None
-            vs = bld.variations(pd, et) if types.kind(et) in ('int', 'bool', 'string', 'array', 'struct') else None
+            try:
+                vs = bld.variations(pd, et) if types.kind(et) in ('int', 'bool', 'string', 'array', 'struct') else None
+            except Untranslatable:
+                vs = None
             if vs is None:
-                raise Untranslatable('pointer parameter to ' + et)
+                raise Untranslatable('pointer parameter to %s (no replay seeds declared)' % et)
             varlists.append((p['name'], et, vs, True))
         else:
             vs = bld.variations(d, tk)
@@ -333,7 +340,7 @@ def gen_test(prog, fnkey, inputs, repo):
     aliased.update(con.seed_imports)
     imps = ''.join('\t"%s"\n' % i for i in sorted(imports) if i != pkg and i not in aliased.values())
     imps += ''.join('\t%s "%s"\n' % (a, p2) for a, p2 in sorted(aliased.items()) if p2 != pkg)
-    src = 'package %s\n\nimport (\n%s)\n%s\n%s\n' % (pkgname, imps, PRELUDE, specs)
+    src = 'package %s\n\nimport (\n%s)\n%s\n%s\n%s\n' % (pkgname, imps, PRELUDE, specs, '\n'.join(con.seed_helpers))
     src += '''
 func vGuard(f func() bool) (ok bool, p any) {
 	defer func() { p = recover() }()
